@@ -41,7 +41,7 @@ Proof.
         -- left; reflexivity.
         -- apply Rsym. apply Hall. apply in_or_app. right. left. reflexivity.
       * apply Hall. apply in_or_app; right; right; exact Hu.
-    + apply IH with (t := t); auto. intros u Hu. apply Hstep. right; exact Hu.
+    + apply IH with (t := t); [exact Hrest | intros u Hu; apply Hstep; right; exact Hu].
 Qed.
 
 (* ------------------------------------------------------------ holdings *)
